@@ -407,6 +407,40 @@ def run_one(args):
         open(path, 'wb').write(orig)
 
 
+def dead_code_verdict(r, _cache={}):
+    """Mutants in code that no run on this platform / Python can reach."""
+    f = r['file']
+    if f not in _cache:
+        src = open(os.path.join(REPO, 'lomond', f)).read()
+        tree = ast.parse(src)
+        main_lines = set()
+        py2_lines = set()
+        for node in ast.walk(tree):
+            if isinstance(node, ast.If):
+                t = ast.unparse(node.test) if hasattr(ast, 'unparse') else ''
+                if '__name__' in t and '__main__' in t:
+                    main_lines.update(range(node.lineno, node.end_lineno + 1))
+                if t in ('six.PY3', 'PY3') and node.orelse:
+                    py2_lines.update(range(node.orelse[0].lineno,
+                                           node.orelse[-1].end_lineno + 1))
+                if t in ('six.PY2', 'PY2'):
+                    py2_lines.update(range(node.body[0].lineno,
+                                           node.body[-1].end_lineno + 1))
+        _cache[f] = (main_lines, py2_lines)
+    main_lines, py2_lines = _cache[f]
+    if r['line'] in main_lines:
+        return 'dead: demo code under __main__'
+    if r['line'] in py2_lines:
+        return 'dead: Python 2 branch'
+    fn = r.get('func') or ''
+    if fn.startswith('TestParser'):
+        return 'dead: demo parser'
+    if f == 'selectors.py' and (fn.startswith('SelectSelector') or
+                                fn.startswith('KQueueSelector')):
+        return 'dead: selector of another platform'
+    return None
+
+
 def load_done():
     done = {}
     if os.path.exists(OUT):
@@ -441,7 +475,7 @@ def summary():
 
 def main():
     ap = argparse.ArgumentParser()
-    ap.add_argument('cmd', choices=['list', 'run', 'rerun-uncaught', 'summary'])
+    ap.add_argument('cmd', choices=['list', 'run', 'rerun-uncaught', 'summary', 'triage'])
     ap.add_argument('--files', default='')
     ap.add_argument('--jobs', type=int, default=5)
     ap.add_argument('--workers', type=int, default=3)
@@ -464,6 +498,20 @@ def main():
     os.makedirs(os.path.dirname(OUT), exist_ok=True)
     done = load_done()
     skip_suite = False
+    if args.cmd == 'triage':
+        n = 0
+        for r in done.values():
+            if r['status'] == 'uncaught' and not r.get('verdict'):
+                v = dead_code_verdict(r)
+                if v:
+                    r['verdict'] = v
+                    n += 1
+        with open(OUT + '.tmp', 'w') as f:
+            for r in done.values():
+                f.write(json.dumps(r, sort_keys=True) + '\n')
+        os.replace(OUT + '.tmp', OUT)
+        print('%d mutants marked as dead code' % n)
+        return summary()
     if args.cmd == 'rerun-uncaught':
         ids = {i for i, r in done.items() if r['status'] == 'uncaught'
                and not r.get('verdict')}
